@@ -49,3 +49,60 @@ __CPROVER_assigns(refCount_, g_owners, g_dealloc, g_bad_order, g_last_mo, g_i_ow
 void h_Fut_incRefCount(void) { g_i_own = 1; Fut_incRefCount(); }
 void h_Fut_decRefCountMaybeDestroy(void) { g_i_own = 1; g_dealloc = 0; g_bad_order = 0; Fut_decRefCountMaybeDestroy(); }
 #endif
+
+/* ---- FutureBase<Result>: which handles own a reference (copy / move / destructor of the Future handle, dispenso/detail/future_impl.h).
+ * Shared states are small handles (0 = nullptr); g_own[h] = true number of owners, g_deadst[h] = dealloc() has run.  incRefCount /
+ * decRefCountMaybeDestroy are used through what the units above prove about them: the count follows the owners, the state dies with the
+ * last owner, and nobody may touch a dead state. ---- */
+#ifdef C18_HANDLES
+typedef unsigned Impl;
+typedef struct FB { Impl impl_; } FB;
+unsigned long long g_own[3]; bool g_deadst[3];
+static void G_dec(Impl h) {
+  __CPROVER_assert(h >= 1 && h <= 2 && !g_deadst[h] && g_own[h] >= 1, "a reference is given up on a live state that this handle owns");
+  g_own[h]--; if (g_own[h] == 0) g_deadst[h] = 1;
+}
+static void G_inc(Impl h) {
+  __CPROVER_assert(h >= 1 && h <= 2 && !g_deadst[h], "a reference is taken only on a state that is still alive (somebody owns it)");
+  g_own[h]++;
+}
+#define HOLD(fb, h) (((fb)->impl_ == (h)) ? 1ull : 0ull)
+/* both handles hold what the ledger says: every state a handle points to is alive and counted (once per distinct handle object) */
+#define FB_OK(a, b, same) ((a)->impl_ <= 2 && (b)->impl_ <= 2 && ((same) ==> (a)->impl_ == (b)->impl_) && \
+  ((a)->impl_ != 0 ==> (!g_deadst[(a)->impl_] && g_own[(a)->impl_] >= 1 + ((!(same) && (b)->impl_ == (a)->impl_) ? 1ull : 0ull))) && \
+  ((b)->impl_ != 0 ==> (!g_deadst[(b)->impl_] && g_own[(b)->impl_] >= 1 + ((!(same) && (b)->impl_ == (a)->impl_) ? 1ull : 0ull))) && g_own[1] < (1ull << 40) && g_own[2] < (1ull << 40) && (g_deadst[1] ==> g_own[1] == 0) && (g_deadst[2] ==> g_own[2] == 0))
+bool g_same; Impl g_self0, g_f0; unsigned long long g_own0[3];
+/* copy(f): this handle ends up sharing f's state; its old state loses exactly this owner, f's state gains exactly one; a state that still
+ * has an owner is never destroyed (in particular when f is this very handle, or shares its state) */
+void FB_copy(FB* self, const FB* f)
+__CPROVER_requires(g_same == (self == f) && FB_OK(self, f, g_same) && g_self0 == self->impl_ && g_f0 == f->impl_ && g_own0[1] == g_own[1] && g_own0[2] == g_own[2])
+__CPROVER_ensures(self->impl_ == g_f0 && f->impl_ == g_f0)
+__CPROVER_ensures(g_own[1] == g_own0[1] - (g_self0 == 1 ? 1 : 0) + (g_f0 == 1 ? 1 : 0) && g_own[2] == g_own0[2] - (g_self0 == 2 ? 1 : 0) + (g_f0 == 2 ? 1 : 0))
+__CPROVER_ensures((g_f0 != 0 ==> !g_deadst[g_f0]) && (g_deadst[1] ==> g_own[1] == 0) && (g_deadst[2] ==> g_own[2] == 0))
+__CPROVER_assigns(self->impl_, __CPROVER_object_whole(g_own), __CPROVER_object_whole(g_deadst))
+#include "FB_copy.body.inc"
+/* move(f): this handle takes over f's reference (no count change on that state), gives up its own; f is left empty */
+void FB_move(FB* self, FB* f)
+__CPROVER_requires(g_same == (self == f) && FB_OK(self, f, g_same) && g_self0 == self->impl_ && g_f0 == f->impl_ && g_own0[1] == g_own[1] && g_own0[2] == g_own[2])
+__CPROVER_ensures(self->impl_ == g_f0 && (g_self0 != g_f0 ==> f->impl_ == 0))
+__CPROVER_ensures(g_self0 != g_f0 ==> (g_own[1] == g_own0[1] - (g_self0 == 1 ? 1 : 0) && g_own[2] == g_own0[2] - (g_self0 == 2 ? 1 : 0)))
+__CPROVER_ensures(g_self0 == g_f0 ==> (g_own[1] == g_own0[1] && g_own[2] == g_own0[2] && f->impl_ == g_f0))
+__CPROVER_ensures((g_f0 != 0 ==> !g_deadst[g_f0]) && (g_deadst[1] ==> g_own[1] == 0) && (g_deadst[2] ==> g_own[2] == 0))
+__CPROVER_assigns(self->impl_, f->impl_, __CPROVER_object_whole(g_own), __CPROVER_object_whole(g_deadst))
+#include "FB_move.body.inc"
+/* ~FutureBase(): gives up exactly its own reference */
+void FB_dtor(FB* self)
+__CPROVER_requires(FB_OK(self, self, 1) && g_self0 == self->impl_ && g_own0[1] == g_own[1] && g_own0[2] == g_own[2])
+__CPROVER_ensures(g_own[1] == g_own0[1] - (g_self0 == 1 ? 1 : 0) && g_own[2] == g_own0[2] - (g_self0 == 2 ? 1 : 0))
+__CPROVER_assigns(__CPROVER_object_whole(g_own), __CPROVER_object_whole(g_deadst))
+#include "FB_dtor.body.inc"
+#ifdef VERIF_CBMC
+_Bool nondet_bool(void); unsigned nondet_unsigned(void);
+static void fbmk(FB* a, FB* b) { g_deadst[0] = 0; g_own0[1] = g_own[1]; g_own0[2] = g_own[2]; g_self0 = a->impl_; g_f0 = b->impl_; }
+void h_FB_copy(void) { FB a, b; a.impl_ = nondet_unsigned(); b.impl_ = nondet_unsigned(); g_own[1] = nondet_ull(); g_own[2] = nondet_ull(); g_deadst[1] = nondet_bool(); g_deadst[2] = nondet_bool();
+  g_same = nondet_bool(); fbmk(&a, g_same ? &a : &b); FB_copy(&a, g_same ? &a : &b); }
+void h_FB_move(void) { FB a, b; a.impl_ = nondet_unsigned(); b.impl_ = nondet_unsigned(); g_own[1] = nondet_ull(); g_own[2] = nondet_ull(); g_deadst[1] = nondet_bool(); g_deadst[2] = nondet_bool();
+  g_same = nondet_bool(); fbmk(&a, g_same ? &a : &b); FB_move(&a, g_same ? &a : &b); }
+void h_FB_dtor(void) { FB a; a.impl_ = nondet_unsigned(); g_own[1] = nondet_ull(); g_own[2] = nondet_ull(); g_deadst[1] = nondet_bool(); g_deadst[2] = nondet_bool(); fbmk(&a, &a); FB_dtor(&a); }
+#endif
+#endif
